@@ -32,6 +32,7 @@ INVARIANT C14_Equity
 INVARIANT C08_FillAtNextOpen
 INVARIANT C19_Membership
 INVARIANT C07_Causal
+INVARIANT C16_SessionCadence
 INVARIANT C07_NoFuture
 INVARIANT C01_Ledger
 INVARIANT C02_Holdings
@@ -103,8 +104,9 @@ def compare(c, exp, out):
         res.append(("rebalance-instants", "portfolio construction ran at %s (records at %s), expected %s" % (
             [str(ts(t)) for t in out.pcm_calls], [str(ts(t)) for t, _ in out.allocs], [str(ts(t)) for t in exp_alloc_t])))
     else:
+        scale = float(c.get("topn", 1)) if c["alpha"] == "topn" else 1.0      # the model records top-N weights in units of 1/N
         for (t, w), (_t, ew) in zip(out.allocs, allocs):
-            e = dict((sym(n), float(x)) for n, x in ew)
+            e = dict((sym(n), float(x) / scale) for n, x in ew)
             if set(w) != set(e):
                 res.append(("alloc-keys", "allocation at %s covers %s, expected %s" % (ts(t), sorted(w), sorted(e))))
             elif any(float(w[k]) != e[k] for k in e):
@@ -158,7 +160,7 @@ def compare(c, exp, out):
                                 res.append(("alloc-table", "allocation row %s is %s before any rebalance" % (d, row)))
                                 break
                         else:
-                            e = dict((sym(n), float(x)) for n, x in allocs[k - 1][1])
+                            e = dict((sym(n), float(x) / (float(c.get("topn", 1)) if c["alpha"] == "topn" else 1.0)) for n, x in allocs[k - 1][1])
                             got = dict((a, v) for a, v in row.items() if v is not None)
                             if got != e:
                                 res.append(("alloc-table", "allocation row %s is %s, expected the record of %s: %s" % (
@@ -279,7 +281,9 @@ def run(prop, replay_file=None):
     if replay_file:
         cfgs = [json.load(open(replay_file))["config"]]
     else:
-        kinds = ("single",) if prop == "C19" else ("fixed", "fixed", "single")
+        # C08 speaks about fixed-weight backtests; the signal-driven top-N configurations are used where the
+        # property is about WHEN a session trades (C14) and by C16's in-backtest part
+        kinds = ("single",) if prop == "C19" else (("fixed", "fixed", "single") if prop == "C08" else ("fixed", "fixed", "single", "topn"))
         cfgs = [sr.gen_config(rng, alpha_kinds=kinds) for _ in range(n)]
     if prop == "C19" and not replay_file:
         rep.cov["evaluations"] += universe_unit(rep)
